@@ -272,6 +272,12 @@ func VerifyAddressKey(ip netip.Addr, digestAlg crop.Hash, keyType crop.KeyPairTy
 		return errors.New("key type not specified")
 	case len(pubKeyData) == 0:
 		return errors.New("key not specified")
+	case !digestAlg.IsValid():
+		return errors.New("hash algorithm not supported")
+	case keyType != crop.KeyPairTypeEd25519:
+		return errors.New("key type not supported")
+	case len(pubKeyData) != ed25519.PublicKeySize:
+		return fmt.Errorf("invalid public key size: %d (should be %d)", len(pubKeyData), ed25519.PublicKeySize)
 	}
 
 	// Make comparison.
